@@ -58,8 +58,8 @@ package tq
 // ready time has passed; nothing is lost or duplicated; left is clamped.
 //@ func (batch).Concat
 //@   props C15
-//@   requires size >= 0
-//@   ensures len(left) <= size || len(left) == 0
+//@   monitor lastleft[0] := result0
+//@   ensures size >= 0 ==> len(left) <= size || len(left) == 0
 //@   ensures forall_int(i, left[i], 0 <= i && i < len(left) ==> time_after(time_now(), left[i].ReadyTime))
 //@   loop 1 invariant forall_int(i, left[i], 0 <= i && i < len(left) ==> time_after(time_now(), left[i].ReadyTime))
 
@@ -352,3 +352,27 @@ package tq
 //@   props C03
 //@   modifies fresh
 //@   ensures result != nil
+
+// C15: the batch collector.  Apart from objects newly taken from the incoming
+// channel, the batch that is attempted is exactly what Concat released as
+// ready ("left"): objects still waiting for their ready time stay in pending
+// until a later Concat releases them, however long the collector slept.
+//@ func (*TransferQueue).collectBatches
+//@   props C15
+//@   requires @inv q != nil && q.wait != nil && q.collectorWait != nil && q.batchSize >= 0
+//@   loop 1 iter len(next) == iter(len(next)) + 1 || len(next) == 0 || next == lastleft(0)
+//@   at call (tq.batch).Concat:1 assert arg2__ == q.batchSize
+//@   dead latch5
+//@ func (*TransferQueue).collectPendingUntil
+//@   assumed
+//@   props C15
+//@   modifies fresh
+//@ func (*TransferQueue).makeBatch
+//@   assumed
+//@   props C15
+//@   modifies fresh
+//@   ensures len(result) == 0
+//@ func (*abortableWaitGroup).Abort
+//@   assumed
+//@   props C15
+//@   modifies fresh, fields q
